@@ -24,6 +24,7 @@ SetupWF(e) ==
   /\ Len(e.fv) >= 1
   /\ e.ndofs >= 1
   /\ (e.p # <<>>) => \A f \in DOMAIN e.fv : \A j \in DOMAIN e.fv[f] : e.fv[f][j] \in DOMAIN e.p
+  /\ Len(e.t) >= 2
 
 Reqs(s, e) == {r \in ContinuityClass(ElemClass(s.elem)) : r.q = e.q /\ r.at = e.at}
 
@@ -40,7 +41,7 @@ Eval(e, s) ==
                        ObservationsComplete |-> \A r \in ContinuityClass(ElemClass(e.elem)) :
                                                    \E j \in DOMAIN e.groups : e.groups[j].q = r.q /\ e.groups[j].at = r.at],
                info |-> {"Info_class_" \o ElemClass(e.elem)} \cup (IF e.curved = 1 THEN {"Info_CurvedMesh"} ELSE {}),
-               st |-> [ok |-> TRUE, elem |-> e.elem, tol |-> TolFor(e.tolclass), p |-> e.p, fv |-> e.fv, ndofs |-> e.ndofs]]
+               st |-> [ok |-> TRUE, elem |-> e.elem, tol |-> TolFor(e.tolclass), p |-> e.p, fv |-> e.fv, t |-> e.t, ndofs |-> e.ndofs]]
     [] e.a = "Group" ->
          IF ~s.ok THEN [cl |-> <<>>, info |-> {"Info_Skipped"}, st |-> s]
          ELSE IF e.err # "" THEN [cl |-> [NoUnexpectedError |-> FALSE], info |-> {}, st |-> s]
@@ -50,6 +51,14 @@ Eval(e, s) ==
                      /\ \A j \in DOMAIN e.items : ItemWF(e.items[j], e, s.ndofs, Len(s.fv)))
                 THEN [cl |-> [GroupWellFormed |-> FALSE], info |-> {}, st |-> s]
            ELSE [cl |-> [GroupWellFormed |-> TRUE, NoUnexpectedError |-> TRUE,
+                         \* the two one-sided bases live on the two different cells that own the facet
+                         SidesAreTheTwoNeighbours |->
+                            /\ Len(e.tind0) = Len(s.fv) /\ Len(e.tind1) = Len(s.fv)
+                            /\ \A f \in DOMAIN s.fv :
+                                  /\ e.tind0[f] \in DOMAIN s.t /\ e.tind1[f] \in DOMAIN s.t
+                                  /\ e.tind0[f] # e.tind1[f]
+                                  /\ VSet(s.fv[f]) \subseteq VSet(s.t[e.tind0[f]])
+                                  /\ VSet(s.fv[f]) \subseteq VSet(s.t[e.tind1[f]]),
                          JumpZero |-> \A j \in DOMAIN e.items : \A r \in rs :
                                          JumpZeroItem(e.items[j], [proj |-> r.proj, ncomp |-> e.ncomp, nq |-> e.nq],
                                                       s.p, s.fv[e.items[j].f], s.tol)],
